@@ -5,7 +5,7 @@ Local Open Scope N_scope.
 (* witness: byte stream from the initial state; expected / actual result of its last byte *)
 Eval vm_compute in ("cex"%string,
   flat_map (fun c =>
-         match explain_all_C02 syn_set1 c with
+         match (match explain_focus_C02 syn_set1 c with Some t => Some t | None => explain_wide_C02 syn_set1 c end) with
          | Some tail =>
              let bs := path1 (fst c) ++ tail in
              [(bs,
